@@ -607,14 +607,14 @@ impl Printer {
                 self.indent += 1;
                 for a in arms {
                     match &a.bind {
-                        Some(b) => self.line_out(&format!("{} {} ->", a.variant, b)),
-                        None => self.line_out(&format!("{} ->", a.variant)),
+                        Some(b) => self.line_out(&format!("{} {} -> do", a.variant, b)),
+                        None => self.line_out(&format!("{} -> do", a.variant)),
                     }
                     self.block(&a.body);
                     self.line_out("end");
                 }
                 if let Some(b) = el {
-                    self.line_out("else");
+                    self.line_out("else do");
                     self.block(b);
                     self.line_out("end");
                 }
